@@ -1630,6 +1630,8 @@ func (kmc *KeystoreManagerForPoC) ChangeRemark(accountID, newRemark string) erro
 		if err != nil {
 			return err
 		}
+		// only a committed change becomes visible in the running instance
+		addrManager.remark = newRemark
 		return nil
 	} else {
 		logging.CPrint(logging.ERROR, "account not exists",
